@@ -140,6 +140,9 @@ def run(facts):
             continue
         if not takes_handle(b):
             continue
+        im_ = facts.impl_of(b)
+        if im_ and (im_.get("trait") or "") == "core::clone::Clone":
+            continue        # `clone_from(&mut self, src)` is `*self = src.clone()`: a new value by definition (the copy itself is the positive example below)
         n_roots += 1
         found = g.reach(b, cut)
         key = "%s|grows only through the reservation helper" % b.id
